@@ -307,9 +307,9 @@ def _(c):
 
 def _grid_dates(tier, rng):
     """every propagator x an explicit list of 4 dates (unevenly spaced, one repeated epoch), the same as a Date.range, and lists that are not in ascending order
-    (descending; arbitrary order) spanning more than the numerical propagators' interpolation window"""
+    (descending; arbitrary order) spanning more than the numerical propagators' interpolation window; a list of one date; a list of no date"""
     for p in range(len(PROPS)):
-        for kind in (0, 1, 2, 3):
+        for kind in (0, 1, 2, 3, 4, 5):
             yield {"prop": p, "kind": kind}
 
 
@@ -321,8 +321,8 @@ def _(c):
     c.require(prop != "none")
     src, d0 = _make(prop)
     kind = c.integer("kind")
-    if kind in (0, 2, 3):
-        secs = {0: (0.0, 130.0, 700.5, 1900.0), 2: (1900.0, 1210.0, 700.5, 130.0, 0.0), 3: (700.5, 0.0, 1900.0, 130.0, 1210.0)}[kind]
+    if kind in (0, 2, 3, 4, 5):
+        secs = {0: (0.0, 130.0, 700.5, 1900.0), 2: (1900.0, 1210.0, 700.5, 130.0, 0.0), 3: (700.5, 0.0, 1900.0, 130.0, 1210.0), 4: (700.5,), 5: ()}[kind]
         dates = [d0 + timedelta(seconds=s) for s in secs]
         pts = list(src.iter(dates=dates))
         if kind != 0:
